@@ -1,4 +1,18 @@
-"""C18 — Subsequence masks and segment distances are exact."""
+"""C18 — Subsequence masks and segment distances are exact.
+
+Two ties between the Lean theorems and the source:
+1. correspondence (this module): the hand-written model lean/SRVerif/Model/Subseq.lean is compared with the
+   running code on the bounded-exhaustive / random inputs described in RULE;
+2. translator tie (harness/translate_py.py, run by harness/common.py:lean_build before this module): the four
+   function bodies are translated mechanically into lean/SRVerif/Generated/SubseqPy.lean on every run and PROVED
+   equal to the model (Generated/SubseqPyEquiv.lean); Properties/C18Code.lean restates the theorems for the
+   generated functions.  Evidence: "translator_tie": "ok (sha256 ...)".
+   * translator cannot parse / generated definitions ill-typed / proof script stale while Lean finds no input
+     distinguishing generated function and model  ->  "unavailable: <reason>", NO alarm: C18Code is left out of
+     this run and tie 1 runs with the thorough budget (ctx.deep);
+   * Lean exhibits an input on which a generated function differs from the model  ->  gen_f_eq_model is a failed
+     proof obligation: deep search, then VIOLATION (with the failing input, or no-failing-input-found).
+"""
 import itertools
 
 from superrec2.utils.subsequences import (
@@ -25,6 +39,10 @@ TRUSTED = [
     "Python ints are Nat, IndexError is `none`)",
     "spec: lean/SRVerif/Spec/Subseq.lean (Contained via Nat.testBit, keptPattern, lostRuns counted by run ends) "
     "and its Python restatement here (itertools.groupby on the bit pattern)",
+    "translator tie (theorems C18_code_* of Properties/C18Code.lean, only when translator_tie is ok): "
+    "harness/translate_py.py (Python ast -> Lean normal form; int parameters as Nat, == on elements as "
+    "DecidableEq, IndexError as Except.error) and the prelude lean/SRVerif/Model/PyRt.lean; for these theorems "
+    "the hand-written model is NOT trusted (generated functions are proved equal to it)",
 ]
 ASSUMPTIONS = [
     "masks are non-negative ints (a negative child mask makes subseq_from_mask loop forever; not modelled)",
